@@ -438,6 +438,14 @@ def Sys.run (s : Sys) (l : List Step) : Sys := l.foldl Sys.step s
 /-- `n` slabs, all parked -/
 def Sys.init (n : Nat) : Sys := { idle := List.range n }
 
+/-- the send state (`udpTXSender`) an actor's burst uses: workers take slots
+`0 … workers-1`, the batch reader of socket `i` takes `workers + i`
+(`newUDPBatchReader`: `r.txBurst.slot = e.workers + idx`) -/
+def senderSlot (workers : Nat) : Actor → Option Nat
+  | .worker i => if i < workers then some i else none
+  | .reader i => some (workers + i)
+  | _ => none
+
 /-! ### the body lease (`responseWriter.BeginWire`, `wire.TryPack`) -/
 
 /-- a Go slice header over some backing array: offset, length, capacity;
